@@ -28,6 +28,17 @@ theorem orderings : Gen.atomicSites =
     [("make_shallow_clone", "fetch_add", "Relaxed"), ("replace_inner", "fetch_sub", "Release"),
      ("replace_inner", "fence", "Acquire"), ("is_unique", "load", "Acquire")] := rfl
 
+/-- the order of the key calls in the heap branch of every copy-out path is the order of the
+protocol model's micro-steps: uniqueness test first; the shared buffer is read and copied
+(`as_str`, allocation) **before** the old reference is released (`replace_inner`); the release is
+`fetch_sub`, then `fence`, then `dealloc` -/
+theorem call_order : Gen.callOrder =
+    [("reserve", ["is_unique", "heap.realloc", "as_str", "HeapBuffer::with_additional", "replace_inner"]),
+     ("ensure_modifiable", ["is_unique", "as_str", "HeapBuffer::new", "replace_inner"]),
+     ("shrink_to", ["as_str", "is_unique", "heap.realloc", "as_str", "HeapBuffer::with_capacity_from", "replace_inner"]),
+     ("replace_inner", ["fetch_sub", "fence", "dealloc"]),
+     ("make_shallow_clone", ["fetch_add", "replace_inner"])] := rfl
+
 /-- initial configurations: one live buffer with `n` handles held by `n` threads -/
 def initCfg (n : Nat) : Cfg := { blocks := [{ live := true, rc := n }], threads := List.replicate n { owned := [0] } }
 
